@@ -272,6 +272,52 @@ func c13Kindmap(c *Ctx) {
 				okOps, why = false, "a converted operand is not stored (appended in order) into the node that is returned"
 			}
 		})
+		// operands converted by a helper: h(v.X.Exprs) whose result is stored into the node
+		allInstrs(fn, func(j ssa.Instruction) {
+			call, ok := j.(*ssa.Call)
+			if !ok || okv == nil || !knownTrue(okv, call) {
+				return
+			}
+			h := calleeFunc(&call.Call)
+			if h == nil || h == fn || c.w.pkgPathOf(h) != pkgConvert || h.Blocks == nil {
+				return
+			}
+			fromVal := false
+			for _, a := range call.Call.Args {
+				if val != nil && derivesFrom(a, val) {
+					fromVal = true
+				}
+			}
+			if !fromVal {
+				return
+			}
+			res := extractOf(call, 0)
+			if res == nil {
+				return
+			}
+			nOps++
+			isToExpr := func(ec *ssa.Call) (ssa.Value, bool) {
+				if calleeFunc(&ec.Call) != fn || len(ec.Call.Args) != 1 {
+					return nil, false
+				}
+				return ec.Call.Args[0], true
+			}
+			if ok, w := elementLoop(c, fn, res, func(x ssa.Value) bool { return val != nil && derivesFrom(x, val) }, isToExpr, 0); !ok {
+				okOps, why = false, "the helper that converts the operands does not convert every operand in order: "+w
+				return
+			}
+			stored := false
+			for _, u := range usesOf(res) {
+				if st, ok := u.(*ssa.Store); ok {
+					if fa, ok := st.Addr.(*ssa.FieldAddr); ok && node != nil && peel(fa.X) == ssa.Value(node) {
+						stored = true
+					}
+				}
+			}
+			if !stored {
+				okOps, why = false, "the converted operands are not stored into the node that is returned"
+			}
+		})
 		isLeaf := strings.HasSuffix(want, "Equal")
 		if !isLeaf && nOps == 0 {
 			okOps, why = false, "operator node without converted operands"
@@ -424,47 +470,7 @@ func c13Loop(c *Ctx) {
 		c.r.ok("C13.loop", name+": return after loop", "the response is returned only once the loop is done", site)
 	}
 	// ---- id
-	idOK, idWhy := false, "the id passed on is not `query.Id, or range index + 1 when Id is 0`"
-	if phi, ok := qidArg.(*ssa.Phi); ok && len(phi.Edges) == 2 {
-		var idLoad ssa.Value
-		posEdge := -1
-		for k, e := range phi.Edges {
-			if f := srcField(e); f != nil && f.Name() == "Id" && derivesFrom(e, pbq) {
-				idLoad = e
-			} else {
-				posEdge = k
-			}
-		}
-		if idLoad != nil && posEdge >= 0 {
-			b, off := lin(phi.Edges[posEdge])
-			ib, ioff := lin(idx)
-			off -= ioff
-			if b == ib && off == 1 {
-				// the replacement edge must come from the branch where Id == 0
-				pred := phi.Block().Preds[posEdge]
-				zeroBranch := false
-				for _, cm := range cmpsAtEnd(pred, phi.Block()) {
-					if cm.Y == nil || cm.Op != token.EQL {
-						continue
-					}
-					x, y := cm.X, cm.Y
-					if _, isK := constInt(x); isK {
-						x, y = y, x
-					}
-					if k, isK := constInt(y); isK && k == 0 && (x == idLoad || c.fc.samePathLoad(x, idLoad)) {
-						zeroBranch = true
-					}
-				}
-				if zeroBranch {
-					idOK = true
-				} else {
-					idWhy = "the positional id is not chosen exactly when Id == 0"
-				}
-			} else {
-				idWhy = fmt.Sprintf("the positional id is range index %+d, expected range index + 1 (1-based position)", off)
-			}
-		}
-	}
+	idOK, idWhy := c13IDValue(c, qidArg, func(x ssa.Value) bool { return derivesFrom(x, pbq) }, idx, 0, 0)
 	c.r.check(idOK, "C13.id", name, "id = query.Id, or int32(range index + 1) on the Id == 0 branch", idWhy, c.w.ipos(ap))
 	// ---- nopartial
 	n := 0
@@ -551,4 +557,118 @@ func c13Grpcpath(c *Ctx) {
 			c.r.bad(rule, name, "the statement does not build rows with newRows", []string{c.w.pos(fn.Pos())})
 		}
 	}
+}
+
+// c13IDValue: v is `query.Id` where that is non-zero and `int32(range index + 1)` exactly where it is zero. v may be a
+// phi, or the result of a module helper that computes the same from the query and the index (parameters are bound at the call).
+// idx is the value the positional id is measured against (the range index in the handler, the bound parameter in a helper)
+// and idxOff the offset already accumulated between the handler's range index and idx.
+func c13IDValue(c *Ctx, v ssa.Value, isQuery func(ssa.Value) bool, idx ssa.Value, idxOff int64, depth int) (bool, string) {
+	type cand struct {
+		val   ssa.Value
+		facts []cmp
+	}
+	var cands []cand
+	switch x := v.(type) {
+	case *ssa.Phi:
+		for k, e := range x.Edges {
+			cands = append(cands, cand{e, cmpsOnEdge(x.Block().Preds[k], x.Block())})
+		}
+	case *ssa.Call:
+		call, callee, _, ok := resultOrigins(c.w, x)
+		if !ok || depth > 1 {
+			return false, "the id passed on is computed by something the rule does not follow"
+		}
+		// bind parameters
+		var qPar, iPar ssa.Value
+		var iOff int64
+		for k, a := range call.Call.Args {
+			if k >= len(callee.Params) {
+				continue
+			}
+			if isQuery(a) || func() bool { l, ok := a.(*ssa.UnOp); return ok && isQuery(l.X) }() || isQuery(peel(a)) {
+				qPar = callee.Params[k]
+			}
+			ab, ao := lin(a)
+			ib, io := lin(idx)
+			if ab == ib {
+				iPar = callee.Params[k]
+				iOff = idxOff + ao - io
+			}
+		}
+		// the query itself is passed (not something derived from it): accept the argument being the query value
+		for k, a := range call.Call.Args {
+			if k < len(callee.Params) && qPar == nil && typeIs(a.Type(), pkgProto, "Query") {
+				qPar = callee.Params[k]
+			}
+		}
+		if qPar == nil || iPar == nil {
+			return false, "the helper computing the id is not given the current query and the range index"
+		}
+		okAll, why := true, ""
+		allInstrs(callee, func(i ssa.Instruction) {
+			ret, isRet := i.(*ssa.Return)
+			if !isRet || len(ret.Results) != 1 || !okAll {
+				return
+			}
+			rv := retVals(ret)[0]
+			if phi, isPhi := rv.(*ssa.Phi); isPhi {
+				okAll, why = c13IDValue(c, phi, func(y ssa.Value) bool { return derivesFrom(y, qPar) }, iPar, iOff, depth+1)
+				return
+			}
+			ok1, w := c13IDCand(c, rv, cmpsAt(ret), func(y ssa.Value) bool { return derivesFrom(y, qPar) }, iPar, iOff)
+			if !ok1 {
+				okAll, why = false, w
+			}
+		})
+		return okAll, why
+	default:
+		// a plain value: must be the query's id under no condition — then the zero case is not handled
+		return false, "the id passed on is not `query.Id, or range index + 1 when Id is 0`"
+	}
+	for _, cd := range cands {
+		if ok, why := c13IDCand(c, cd.val, cd.facts, isQuery, idx, idxOff); !ok {
+			return false, why
+		}
+	}
+	return len(cands) > 0, "the id passed on is not `query.Id, or range index + 1 when Id is 0`"
+}
+
+// c13IDCand judges one candidate value with the comparisons known where it is produced.
+func c13IDCand(c *Ctx, v ssa.Value, facts []cmp, isQuery func(ssa.Value) bool, idx ssa.Value, idxOff int64) (bool, string) {
+	idFact := func(op token.Token) bool {
+		for _, cm := range facts {
+			if cm.Y == nil || cm.Op != op {
+				continue
+			}
+			x, y := cm.X, cm.Y
+			if _, isK := constInt(x); isK {
+				x, y = y, x
+			}
+			if k, isK := constInt(y); isK && k == 0 {
+				if f := srcField(x); f != nil && f.Name() == "Id" && isQuery(x) {
+					return true
+				}
+			}
+		}
+		return false
+	}
+	if f := srcField(v); f != nil && f.Name() == "Id" && isQuery(v) {
+		if idFact(token.NEQ) {
+			return true, ""
+		}
+		return false, "the query's own id is used also when it is 0"
+	}
+	b, off := lin(v)
+	ib, io := lin(idx)
+	if b == ib {
+		if off-io+idxOff != 1 {
+			return false, fmt.Sprintf("the positional id is range index %+d, expected range index + 1 (1-based position)", off-io+idxOff)
+		}
+		if idFact(token.EQL) {
+			return true, ""
+		}
+		return false, "the positional id is not chosen exactly when Id == 0"
+	}
+	return false, "the id passed on is not `query.Id, or range index + 1 when Id is 0`"
 }
